@@ -47,6 +47,8 @@ pub struct Scenario {
     pub buf_fresh: bool,
     pub sync_cancel: SyncCancelMode,
     pub sqpoll: bool,
+    /// Submission queue entries.
+    pub sq: u32,
 }
 
 #[derive(Clone, Copy, Debug, PartialEq, Eq, Hash)]
@@ -138,7 +140,7 @@ impl C12World {
         let need_table = sc.direct_fd;
         let need_pool = sc.pool || sc.buf_owned || sc.buf_fresh || sc.ops.iter().any(|(k, _)| k.needs_pool());
         talloc::track(|| {
-            let mut c = Ring::config().with_submission_queue_size(8);
+            let mut c = Ring::config().with_submission_queue_size(sc.sq);
             if need_table {
                 c = c.with_direct_descriptors(4);
             }
@@ -521,7 +523,7 @@ pub fn scenarios(quick: bool) -> Vec<Scenario> {
     use Kind::*;
     use OpState::*;
     let mut v = Vec::new();
-    let base = Scenario { ops: vec![], sq_clone: false, direct_fd: false, pool: false, buf_owned: false, buf_fresh: false, sync_cancel: SyncCancelMode::All, sqpoll: false };
+    let base = Scenario { ops: vec![], sq_clone: false, direct_fd: false, pool: false, buf_owned: false, buf_fresh: false, sync_cancel: SyncCancelMode::All, sqpoll: false, sq: 8 };
     // One operation in every state, with and without the other object kinds.
     let single: Vec<(Kind, OpState)> = vec![
         (ReadVec, NotStarted),
@@ -550,6 +552,18 @@ pub fn scenarios(quick: bool) -> Vec<Scenario> {
         for mode in [SyncCancelMode::Fail(libc::EINVAL), SyncCancelMode::Nothing] {
             if matches!(op.1, InFlight | Queued | MidStream | AbandonedCancelQueued) {
                 v.push(Scenario { ops: vec![*op], sync_cancel: mode, ..base.clone() });
+            }
+        }
+    }
+    // Small queues: what is queued at the time of the drops fills (or overfills) the queue.
+    for op in &single {
+        if matches!(op.1, NotStarted) {
+            continue;
+        }
+        for sq in [1u32, 2] {
+            v.push(Scenario { ops: vec![*op], sq, direct_fd: true, ..base.clone() });
+            if !quick {
+                v.push(Scenario { ops: vec![*op], sq, sq_clone: true, ..base.clone() });
             }
         }
     }
